@@ -386,7 +386,7 @@ def specVcd (d : Decls) (vars : List (List Nat × SigType)) (rm : RealMap) (body
   | .ok evs =>
     -- aliases must agree on the type
     let aliasOk := (d.varSig.zip (vars.map (·.2))).all fun (idx, tp) => d.sigTypes.getD idx SigType.string == tp
-    if !aliasOk || (!endsWs body) then ("-", "-") else
+    if !aliasOk then ("-", "-") else
     let ops? : Option (List Op) := evs.mapM fun e =>
       match e with
       | .time t => some (Op.time t)
